@@ -984,6 +984,21 @@ func fatRefill(fr *fatRun, fs filesystem.FileSystem, cs int, step func(fsdrive.O
 			res.Inconclusive = "refill: volume never reported no space"
 			return
 		}
+		// what is left is less than the refused file needed: use it up too, one cluster at a time, so that
+		// the very last cluster of the volume is written (a full cluster) before the final refusal
+		for i := 0; i < 100000; i++ {
+			name := fmt.Sprintf("fill/tail%04d.bin", i)
+			op := fsdrive.Op{Kind: "write", Path: name, Len: cs, DSeed: uint64(cyc*100000 + 50000 + i)}
+			if !step(op) {
+				return
+			}
+			if drv.History[len(drv.History)-1].Err != "" {
+				res.Mark("filled to the last cluster")
+				break
+			}
+			accepted += int64(cs)
+			names = append(names, name)
+		}
 		res.Count("refill.cycles", 1)
 		res.Count("refill.bytes_accepted", accepted)
 		if first < 0 {
